@@ -75,6 +75,7 @@ inductive HKind | async | sync | forward (target : BId) | expect (x : Nat) (pred
   deriving DecidableEq, Repr, Inhabited
 
 def HKind.isForward : HKind → Bool | .forward _ => true | _ => false
+def HKind.isExpect : HKind → Bool | .expect _ _ => true | _ => false
 def HKind.isSync : HKind → Bool | .async => false | _ => true
 
 /-- control state of a bus's run loop task (`_run_loop` / `step`) -/
